@@ -22,17 +22,24 @@ PP = 'pyphysim.pointprocess.pointprocess'
 
 EXPLANATION = (
     'The real Shape/Rectangle/Hexagon/Circle, Cell*/Cluster and pointprocess '
-    'code runs on symbolic complex positions, radii > 0 and rotations; a '
+    'code runs on symbolic complex positions, sizes > 0 and rotations; a '
     'symbolic rotation (degrees) reaches the code\'s np.exp(1j*angle) and '
-    'becomes an uninterpreted pair (c,s) with c^2+s^2=1, i.e. an arbitrary '
-    'rotation.  Oracles are built by the harness from the objects\' own '
-    '`vertices` (half-plane tests, edge membership), from the property text '
-    '(distance r, neighbour distance 2*apothem / one side, centroid) and are '
-    'decided by z3 QF_NRA over exact rationals on every explored path; '
-    'float literals of the code (cos/sin 60 deg, sqrt 3) are exact rationals '
+    'becomes a pair of real atoms (c,s) with c^2+s^2=1 keyed by the exact '
+    'argument polynomial (parity and constant-offset addition normal forms, '
+    'angle=0 => (1,0)), i.e. an arbitrary rotation.  Oracles are built by the '
+    'harness from the objects\' own `vertices` (half-plane tests, edge '
+    'membership) and from the property text (distance r, neighbour distance '
+    '2*apothem / one side along an edge normal, centroid, Euclidean distance) '
+    'and are decided by z3 QF_NRA over exact rationals on every explored '
+    'path, each query one-shot (nlsat) instead of z3\'s incremental core.  '
+    'Float literals of the code (cos/sin 60 deg, sqrt 3) are exact rationals '
     'and the obligations carry an explicit 1e-11 relative tolerance where '
-    'such literals enter.  Counterexamples are replayed through the public '
-    'API on plain floats (rotation recovered as atan2(s,c)).')
+    'such literals enter.  Where rotation, size and direction cannot all be '
+    'symbolic at once (z3 answers unknown) the units split into arbitrary '
+    'rotation x literal size and literal rotation x arbitrary size/angle.  '
+    'Counterexamples are replayed through the public API on plain floats '
+    '(rotation recovered as atan2(s,c), RNG draws scripted); three genuine '
+    'defects are listed in known_findings.d/C19.json with proposed patches.')
 
 TOL = Fraction(1, 10**11)
 MARGIN = Fraction(1, 10**4)     # only used to ask for robust witnesses
@@ -55,6 +62,42 @@ def prove2(ctx, name, goal, robust_goal=None, **kw):
         ctx.solver.pop()
         ctx.solver.set('timeout', ctx.timeout_ms)
     return rec
+
+
+def prove_any(ctx, name, disjuncts, robust_goal=None, each_ms=4000):
+    """prove a disjunction: a single proven disjunct suffices (small
+    queries); otherwise the full disjunction is sent to the solver"""
+    for d in disjuncts:
+        t = core._z3bool(d)
+        if t is True:
+            return ctx.prove(name, True)
+        if t is False:
+            continue
+        ctx.solver.push()
+        ctx.solver.set('timeout', each_ms)
+        ctx.solver.add(z3.Not(t))
+        r = ctx.check(backend='prove')
+        ctx.solver.pop()
+        ctx.solver.set('timeout', ctx.timeout_ms)
+        if r == 'unsat':
+            return ctx.record(name, 'unsat', 'z3-one-disjunct')
+    return prove2(ctx, name, Or(*disjuncts), robust_goal)
+
+
+def prove_all(ctx, name, conjuncts, robust_goal=None):
+    """prove a conjunction conjunct by conjunct (small queries); on the first
+    one that is not proven the whole goal goes through prove2 (witness)"""
+    for d in conjuncts:
+        t = core._z3bool(d)
+        if t is True:
+            continue
+        ctx.solver.push()
+        ctx.solver.add(z3.Not(t) if t is not False else z3.BoolVal(True))
+        r = ctx.check(backend='prove')
+        ctx.solver.pop()
+        if r != 'unsat':
+            return prove2(ctx, name, And(*conjuncts), robust_goal)
+    return ctx.record(name, 'unsat', 'z3-per-conjunct')
 
 
 _ROBUST_DONE = set()
@@ -574,12 +617,13 @@ class RectContain(Harness):
                  SH + ':Rectangle._get_vertex_positions',
                  SH + ':Shape.calc_rotated_pos',
                  SH + ':Rectangle.is_point_inside_shape')
-    bounds = ('corners first/second: symbolic complex in each of the 4 '
-              'relative orders; rotation symbolic (c,s) or literal 0/90/-45.5;'
-              ' query point symbolic complex')
+    bounds = ('corners first/second = centre -+ (w + j h) with symbolic centre '
+              'and w,h > 0, in each of the 4 corner orders (every rectangle '
+              'with distinct corner coordinates); rotation symbolic (c,s) or '
+              'literal 0/90 (+ -45.5 thorough); query point symbolic complex')
     stubs = ('complex() -> symbolic complex constructor',
-             'np.exp(1j*x) -> (Cos x, Sin x) uninterpreted with c^2+s^2=1, '
-             'parity normal form cos(-x)=cos x, sin(-x)=-sin x')
+             'np.exp(1j*x) -> real atoms (cos x, sin x) with c^2+s^2=1, '
+             'parity normal form cos(-x)=cos x, sin(-x)=-sin x, x=0 => (1,0)')
     assumptions = ('floats are exact reals', )
     outside = ('points within 1e-11*size of the boundary for literal non-zero '
                'rotations (cos/sin literals are inexact)', )
@@ -617,16 +661,24 @@ class RectContain(Harness):
         R = sh.Rectangle(f, s, rot)
         V = R.vertices
         res = bool(R.is_point_inside_shape(p))
-        cr = _edge_crosses(V, p)
+        cr = _oriented_crosses(V, p)
         size2 = (_c(s) - _c(f)).abs2() + q.abs2()
         slack = 0
         if _lit(cfg) not in (None, 0.0):
             # literal cos/sin: c^2+s^2 = 1 +- 1e-16; margin scaled by the
             # squared size of the figure
             slack = size2 * TOL
-        if res:
+        if res and isinstance(cr, _Oriented):
+            prove_all(ctx, 'True=>in-closed-polygon-of-vertices',
+                      [x >= -slack for x in cr],
+                      _in_closed(cr, size2 * MARGIN))
+        elif res:
             prove2(ctx, 'True=>in-closed-polygon-of-vertices',
                    _in_closed(cr, slack), _in_closed(cr, size2 * MARGIN))
+        elif isinstance(cr, _Oriented):
+            prove_any(ctx, 'False=>not-in-open-polygon-of-vertices',
+                      [x <= slack for x in cr],
+                      Not(_in_open(cr, size2 * MARGIN)))
         else:
             prove2(ctx, 'False=>not-in-open-polygon-of-vertices',
                    Not(_in_open(cr, slack)), Not(_in_open(cr, size2 * MARGIN)))
@@ -768,28 +820,64 @@ _E6 = [complex(math.cos(math.radians(60 * k)), math.sin(math.radians(60 * k)))
        for k in range(6)]
 
 
+_RHO3 = [math.sqrt(3.0), 1.0, math.sqrt(3.0), 2.0]
+
+
+def _polar(deg):
+    return complex(math.cos(math.radians(deg)), math.sin(math.radians(deg)))
+
+
 class HexVertices(Harness):
     """Hexagon.vertices: six points pos + r*e^{j(rot + 60(k-2))}: distance r
-    from pos, consecutive distance r, counter-clockwise, rotation applied."""
+    from pos, consecutive distance r, counter-clockwise, rotation applied.
+    Cell3Sec.vertices: the outline of three hexagons of radius s = r/sqrt(3)
+    around the common vertex pos: pos + s*rho_k*e^{j(rot - 120 + 30k)},
+    rho = (sqrt3, 1, sqrt3, 2) repeating; sector centres pos + s*e^{j(rot +
+    210/330/90)} with rotation rot-30."""
     name = 'hex-vertices'
-    modules = (SH, )
+    modules = (SH, CE)
     builtins = NAMES
     functions = (SH + ':Hexagon._get_vertex_positions', SH + ':Hexagon.height',
-                 SH + ':Shape.vertices', SH + ':Shape.calc_rotated_pos')
+                 SH + ':Shape.vertices', SH + ':Shape.calc_rotated_pos',
+                 CE + ':Cell3Sec._get_vertex_positions',
+                 CE + ':Cell3Sec._calc_sectors_positions',
+                 CE + ':Cell3Sec.secradius')
     bounds = ('pos symbolic complex, r > 0, rotation symbolic (c,s) or literal '
               '0/30/90/-45.5; tolerance 1e-11*r (float literals of cos/sin '
               '60 deg and sqrt 3 in the code)')
     timeout_ms = {'quick': 15000, 'thorough': 60000}
 
     def configs(self, tier):
-        return [dict(rot=r) for r in ('sym', 0.0, 30.0, 90.0, -45.5)]
+        out = [dict(shape='hex', rot=r) for r in ('sym', 0.0, 30.0, 90.0, -45.5)]
+        out += [dict(shape='3sec', rot=r) for r in ('sym', 0.0, -45.5)]
+        return out
 
     def sym(self, ctx, cfg):
         _setup(ctx, self, cfg)
-        sh = repo_module(SH)
+        sh, ce = repo_module(SH), repo_module(CE)
         rot = _rot_input(ctx, cfg)
         pos = ctx.cplx('pos')
         r = ctx.real('r', positive=True)
+        u = _unit_rot(rot)
+        if cfg.get('shape', 'hex') == '3sec':
+            C = ce.Cell3Sec(pos, r, None, rot)
+            V = C.vertices
+            assert len(V) == 12
+            s3 = Fraction(1.0 / math.sqrt(3.0))
+            goals = []
+            for k in range(12):
+                d = (_c(V[k]) - pos) / r - u * (_polar(-120 + 30 * k) *
+                                                 _RHO3[k % 4]) * s3
+                goals.append(And(_band(d.re, 4 * TOL), _band(d.im, 4 * TOL)))
+            ctx.prove('3sec-outline', And(*goals))
+            goals = []
+            for sec, deg in ((C._sec1, 210), (C._sec2, 330), (C._sec3, 90)):
+                d = (_c(sec.pos) - pos) / r - u * _polar(deg) * s3
+                goals.append(And(_band(d.re, 4 * TOL), _band(d.im, 4 * TOL),
+                                 _band(SReal(sec.radius) / r - s3, TOL),
+                                 SReal(sec.rotation) == SReal(rot) - 30))
+            ctx.prove('3sec-sectors', And(*goals))
+            return
         H = sh.Hexagon(pos, r, rot)
         V = H.vertices
         assert len(V) == 6
@@ -803,52 +891,60 @@ class HexVertices(Harness):
         ctx.prove('counter-clockwise', And(*[
             _cross(W[k], W[(k + 1) % 6]) > Fraction(8, 10) for k in range(6)]))
         # rotation applied: vertex k at angle rot + 60(k-2)
-        if isinstance(rot, SReal):
-            cs = uf._trig(rot * np.pi / 180.)
-            u = SComplex(cs[0], cs[1])
-        else:
-            u = _c(complex(math.cos(math.radians(rot)),
-                           math.sin(math.radians(rot))))
         goals = []
         for k in range(6):
             d = W[k] - u * _E6[(k - 2) % 6]
-            goals.append(And(d.re <= TOL, d.re >= -TOL, d.im <= TOL,
-                             d.im >= -TOL))
+            goals.append(And(_band(d.re, TOL), _band(d.im, TOL)))
         ctx.prove('vertex-angles', And(*goals))
         ctx.prove('height-is-apothem',
                   And(H.height / r * 2 <= math.sqrt(3) * (1 + 1e-12),
                       H.height / r * 2 >= math.sqrt(3) * (1 - 1e-12)))
 
     @staticmethod
-    def _bad(sh, pos, r, rot):
+    def _bad(sh, ce, shape, pos, r, rot):
+        bad = []
+        if shape == '3sec':
+            C = ce.Cell3Sec(pos, r, None, rot)
+            V = C.vertices
+            s = r / math.sqrt(3.0)
+            for k in range(12):
+                want = pos + s * _RHO3[k % 4] * _polar(rot - 120 + 30 * k)
+                if abs(V[k] - want) > 1e-10 * r:
+                    bad.append(k)
+            for sec, deg in ((C._sec1, 210), (C._sec2, 330), (C._sec3, 90)):
+                if abs(sec.pos - (pos + s * _polar(rot + deg))) > 1e-10 * r or \
+                        abs(sec.radius - s) > 1e-10 * r or \
+                        abs(sec.rotation - (rot - 30)) > 1e-9:
+                    bad.append('sector%d' % deg)
+            return bad, V
         H = sh.Hexagon(pos, r, rot)
         V = H.vertices
-        bad = []
         for k in range(6):
-            want = pos + r * complex(
-                math.cos(math.radians(rot + 60 * (k - 2))),
-                math.sin(math.radians(rot + 60 * (k - 2))))
-            if abs(V[k] - want) > 1e-9 * r:
+            want = pos + r * _polar(rot + 60 * (k - 2))
+            if abs(V[k] - want) > 1e-10 * r:
                 bad.append(k)
         return bad, V
 
     def replay(self, cfg, name, model):
-        sh = repo_module(SH)
+        sh, ce = repo_module(SH), repo_module(CE)
         m = model_floats(model)
         rot = _angle_from_model(m, 'rot', _lit(cfg))
         pos = complex(m['pos_re'], m['pos_im'])
-        bad, V = self._bad(sh, pos, m['r'], rot)
-        return dict(reproduced=bool(bad), key='C19/Hexagon.vertices/position',
+        shape = cfg.get('shape', 'hex')
+        bad, V = self._bad(sh, ce, shape, pos, m['r'], rot)
+        return dict(reproduced=bool(bad),
+                    key='C19/%s.vertices/position' %
+                    ('Cell3Sec' if shape == '3sec' else 'Hexagon'),
                     detail=dict(pos=pos, r=m['r'], rotation=rot, wrong=bad,
                                 vertices=[complex(v) for v in V]))
 
     def concrete(self, cfg, rng):
-        sh = repo_module(SH)
+        sh, ce = repo_module(SH), repo_module(CE)
         for _ in range(20):
             pos = complex(rng.uniform(-5, 5), rng.uniform(-5, 5))
-            bad, V = self._bad(sh, pos, 10**rng.uniform(-2, 2),
-                               rng.uniform(-720, 720))
-            assert not bad
+            bad, V = self._bad(sh, ce, cfg.get('shape', 'hex'), pos,
+                               10**rng.uniform(-2, 2), rng.uniform(-720, 720))
+            assert not bad, bad
         return 20
 
 
@@ -958,9 +1054,8 @@ class BorderPoint(Harness):
         if not q:
             out.append(dict(shape='square', rot='sym', off=60.0, r=2.5))
             out.append(dict(shape='hex', rot='sym', off=0.0, r=1.0))
-            for half in ('upper', 'lower'):
+            for half in ('q1', 'q2', 'q3', 'q4'):
                 out.append(dict(shape='3sec', rot=0.0, half=half))
-                out.append(dict(shape='rect', rot=30.0, half=half))
         return out
 
     @staticmethod
@@ -1637,4 +1732,35 @@ HARNESSES = [_wrap_replay(h) for h in HARNESSES]
 
 MANIFEST = dict(
     category='model_checking',
-    text='TBD', note='TBD', technique='TBD')
+    text='Bounded symbolic model checking of the real pyphysim.cell / '
+    'pointprocess code on symbolic complex positions, sizes and rotations '
+    '(a symbolic rotation in degrees reaches the code\'s np.exp(1j*angle) and '
+    'becomes a pair (c,s), c^2+s^2=1 = arbitrary rotation): z3 QF_NRA over '
+    'exact rationals proves on every explored path that '
+    'Rectangle.is_point_inside_shape agrees with the convex polygon of the '
+    'object\'s own vertices, Circle containment/vertices/border points are '
+    'the disc of radius r, Hexagon and 3-sector vertices are the points '
+    'pos + r*rho_k*e^{j(rot+angle_k)} (1e-11 relative), get_border_point / '
+    'add_border_user land on the boundary of that polygon in the requested '
+    'direction scaled by the ratio (hexagon, square, rectangle with symbolic '
+    'aspect ratio, 3-sector), add_random_user terminates only with a user '
+    'inside the polygon and no closer than min_dist_ratio*r (RNG = arbitrary '
+    'reals in [0,1), <= 2 rejections), clusters of 1..19 hexagon / 1..25 '
+    'square / 3-sector cells are congruent, centred, neighbour centres '
+    'exactly 2 apothems / 1 side apart along an edge normal, pairwise '
+    'separated and share an edge, distance matrices are Euclidean, and '
+    'random points in a circle/annulus/rectangle fall inside it.  '
+    'Counterexamples are replayed on plain floats through the public API.',
+    note='floats are exact reals (float literals of the code are exact '
+    'rationals, obligations carry 1e-11 relative tolerance); where rotation, '
+    'size and angle cannot all be symbolic at once (z3 unknown) the units '
+    'split into arbitrary-rotation/literal-size and literal-rotation/'
+    'arbitrary-size (+ arbitrary angle); Shape.is_point_inside_shape '
+    '(hexagon, 3-sector) runs matplotlib C++ and is replaced by a stated '
+    'contract; np.argsort/np.max on |.| modelled as comparison sort on squared '
+    'keys; divisors assumed non-zero in get_border_point; wrap-around cells, '
+    'Grid and plotting outside; known defects listed in known_findings.d/C19.json',
+    technique='symbolic execution of real code on numpy object arrays of '
+    'exact-real proxies, path forking, (cos,sin) as constrained real atoms with '
+    'parity/addition normal forms, one-shot z3 QF_NRA (nlsat) per query, '
+    'counterexample replay on the real code')
